@@ -264,7 +264,7 @@ def run():
     if len(g.edges) < 3000:
         raise core.MachineryError("IqRegistry edge dump too small (%d)" % len(g.edges))
     r.notes["spec_transitions"] = len(g.edges)
-    paths = g.transition_cover(rng)
+    paths = g.transition_cover(rng, tail=2)
     covered = set()
     reps = 3 if thorough else 1
     for pi, p in enumerate(paths):
